@@ -9,6 +9,12 @@ CLAIMED = {
     level_text="Seeded exploration: every run executes the real annet.parallel code (parent loop, workers, retry, callbacks) on an in-process multiprocessing/time stand-in whose scheduler, delays and faults come from one choice list; the oracle is the exact multiset of delivered outcomes, their payloads and termination. A clean batch is evidence over the sampled schedules, not a proof.",
     design_ref="DESIGN.md 3.2, 3.3, 5 (C12)",
     level_note="Trusted: the kernel, FakeMP's model of mp.Queue/Process (asynchronous put, per-producer FIFO, exit waits for feeder flush; calibrated against one real-multiprocessing reproduction), the workload generator. Pre-emption only at intercepted operations; pipe capacity unbounded; no worker killed from outside."),
+ "C20": dict(
+    engine="history",
+    technique="deterministic simulation: seeded job histories inside one long-lived (simulated) worker process, sequential or scheduled by the simulated pool, each result compared with a pristine-fork execution",
+    level_text="Seeded exploration of processing histories: each run executes 4..40 jobs (real _diff_and_patch, apply_acl, Orderer.order_config on shipped and synthetic rulebooks, with shared compiled ACL objects and state-leaking logic functions) in one process, in an order chosen by seed or by the simulated pool scheduler, and compares every result with the same job run in a fork of the pristine process; old/new trees and compiled rulebooks are snapshotted around every call.",
+    design_ref="DESIGN.md 5 (C20)",
+    level_note="Trusted: the canonical result/snapshot encoders, os.fork as the model of a fresh process, the fixed job table (corpus x2, ACL variants, 18 synthetic rulebooks). Within-job leakage between keys of one rule is identical in the reference and therefore invisible."),
 }
 
 NOT_APPLICABLE = {
